@@ -66,6 +66,9 @@ def mk_machine(sc, enroll_iterations=1, em_iterations=1):
     rng = np.random.default_rng(12345)
     w, m, v = (np.array(sc[k], dtype=float) for k in ("w", "m", "v"))
     U, V, Dd = (np.array(sc[k], dtype=float) for k in ("U", "V", "Dd"))
+    if sc.get("int_subspaces"):  # integer-valued U and V handed over as integer-typed arrays (a legal way to set them)
+        U = U.astype(np.int64) if np.all(U == np.rint(U)) else U
+        V = V.astype(np.int64) if np.all(V == np.rint(V)) else V
     other_ubm = route in ("reuse_all", "reuse_ubm")
     other_sub = route in ("reuse_all", "reuse_subspaces")
     m0 = m + rng.normal(size=m.shape) if other_ubm else m
